@@ -1082,6 +1082,88 @@ theorem c10_time_shared_profile_orig_counterexample :
     tGet false table val s ≠ (calcS table s.ivs s.prof).map (fun S => s.trial.map (timePd (val s.prof) s.ivs S)) := by
   decide
 
+/-! ## the interpolated grid density of `MultiDimGridPDF` -/
+
+section
+variable {K : Type} [Field K] [LinearOrder K] [IsStrictOrderedRing K]
+
+theorem C10.interpO_nonneg (xs : List K) (vs : List (Option K)) (x : K) (hx : xs.IsChain (· < ·))
+    (hv : ∀ v ∈ vs, ∀ p, v = some p → 0 ≤ p) : ∀ r, interpO xs vs x = some r → 0 ≤ r := by
+  induction xs generalizing vs with
+  | nil => intro r h; simp [interpO] at h
+  | cons a rest ih =>
+    cases rest with
+    | nil => intro r h; cases vs <;> simp [interpO] at h
+    | cons b xs' =>
+      cases vs with
+      | nil => intro r h; simp [interpO] at h
+      | cons va vs' =>
+        cases vs' with
+        | nil => intro r h; simp [interpO] at h
+        | cons vb vs'' =>
+          intro r h
+          simp only [List.isChain_cons_cons] at hx
+          unfold interpO at h
+          split_ifs at h with hc
+          · cases va with
+            | none => simp at h
+            | some p =>
+              cases vb with
+              | none => simp at h
+              | some q =>
+                simp only [Option.some.injEq] at h
+                have hp : 0 ≤ p := hv (some p) (by simp) p rfl
+                have hq : 0 ≤ q := hv (some q) (by simp) q rfl
+                have hab : 0 < b - a := sub_pos.mpr hx.1
+                have hd0 : 0 ≤ (x - a) / (b - a) := div_nonneg (sub_nonneg.mpr hc.1) (le_of_lt hab)
+                have hd1 : (x - a) / (b - a) ≤ 1 := by
+                  rw [div_le_one hab]; linarith [hc.2]
+                rw [← h]
+                have : 0 ≤ 1 - (x - a) / (b - a) := by linarith
+                positivity
+          · exact ih (vb :: vs'') hx.2 (fun v hvm => hv v (by simp [List.mem_cons] at hvm ⊢; tauto)) r h
+
+/-- **grid density non-negative**: for non-negative grid values on strictly increasing axes the
+bilinear interpolant of `MultiDimGridPDF` (fill value 0 outside) is `≥ 0` at every point, hence so
+is `interpolant × norm factor` for a non-negative norm factor. -/
+theorem c10_grid_interp_nonneg (ey ex : List K) (grid : List (List K)) (y x nrm : K)
+    (hy : ey.IsChain (· < ·)) (hx : ex.IsChain (· < ·)) (hg : ∀ row ∈ grid, ∀ v ∈ row, 0 ≤ v)
+    (hn : 0 ≤ nrm) : 0 ≤ interp2 ey ex grid y x * nrm := by
+  apply mul_nonneg _ hn
+  unfold interp2
+  split
+  · rename_i v hv
+    refine C10.interpO_nonneg ey _ y hy ?_ v hv
+    intro o ho p hp
+    simp only [List.mem_map] at ho
+    obtain ⟨row, hrow, rfl⟩ := ho
+    refine C10.interpO_nonneg ex _ x hx ?_ p hp
+    intro o' ho' p' hp'
+    simp only [List.mem_map] at ho'
+    obtain ⟨v', hv', rfl⟩ := ho'
+    simp only [Option.some.injEq] at hp'
+    rw [← hp']; exact hg row hrow v' hv'
+  · exact le_refl _
+
+/-- the interpolant reproduces the grid values at the knots of a cell: at the left knot `va`, at the
+right knot `vb` -/
+theorem c10_grid_interp_knots (a b p q : K) (xs : List K) (vs : List (Option K)) (hab : a < b) :
+    interpO (a :: b :: xs) (some p :: some q :: vs) a = some p ∧
+    interpO (a :: b :: xs) (some p :: some q :: vs) b = some q := by
+  have hne : b - a ≠ 0 := ne_of_gt (sub_pos.mpr hab)
+  constructor
+  · unfold interpO
+    rw [if_pos ⟨le_refl _, le_of_lt hab⟩]
+    simp
+  · unfold interpO
+    rw [if_pos ⟨le_of_lt hab, le_refl _⟩]
+    simp only [Option.some.injEq]
+    rw [div_self hne]; ring
+end
+
+example : interp2 ([0, 2] : List ℚ) [0, 1, 3] [[1, 3, 5], [3, 5, 7]] 1 2 = 5 := by
+  simp [interp2, interpO]; norm_num
+
 /-! ## evaluation cache of `MultiDimGridPDF`, `PDFProduct` -/
 
 namespace C10
